@@ -1776,6 +1776,11 @@ class unregister( octets_noop ):
         ours			= self.context( path=path )
         data[ours]		= True
 
+    @staticmethod
+    def produce( data ):
+        """UnregisterSession carries no payload."""
+        return b''
+
 
 class CPF_service( dfa ):
     """Handle Service request/reply that are encoded as a CPF list.  We must deduce whether we are
